@@ -14,3 +14,56 @@ package db
 //@   pure
 //@   loop 1 invariant [none-matched] forall k string :: _visited[k] ==> !reMatch(BreakingPragmas[k], stmt)
 //@   ensures [iff-some-pattern] result == (exists k string :: k in BreakingPragmas && reMatch(BreakingPragmas[k], stmt))
+//
+// ---- C17: reads use the read-only pool ---------------------------------------------------------
+//@ spec import lib/sqlurl
+//
+// MakeDSN: a read-only DSN carries mode=ro and _query_only=true; a read-write DSN carries neither.
+//@ func MakeDSN
+//@   assigns optHas, optVal
+//@   ghost var o int = 0
+//@   ghost update @def:opts: o = opts
+//@   assert @fmt.Sprintf: [ro-opts] readOnly ==> (optHas[o]["mode"] && optVal[o]["mode"] == "ro" && optHas[o]["_query_only"] && optVal[o]["_query_only"] == "true")
+//@   assert @fmt.Sprintf: [rw-opts] (!readOnly && !old(optHas)[o]["mode"] && !old(optHas)[o]["_query_only"]) ==> (!optHas[o]["mode"] && !optHas[o]["_query_only"])
+//@   assert @fmt.Sprintf: [journal] optVal[o]["_journal"] == ite(walEnabled, "WAL", "DELETE")
+//
+// OpenWithDriver: the read-write handle is opened with the DSN built for ModeReadWrite and the
+// read-only handle with the DSN built for ModeReadOnly; they are different handles and end up
+// in the rwDB / roDB fields respectively.
+//@ func OpenWithDriver
+//@   assigns *, optHas, optVal, handleOpen, handleDSN
+//@   ghost var nMake int = 0
+//@   ghost var rwD string = ""
+//@   ghost var roD string = ""
+//@   assert @MakeDSN#1: [rw-first] arg1 == ModeReadWrite && !arg1 && arg0 == dbPath
+//@   ghost update @MakeDSN#1: rwD = result
+//@   assert @MakeDSN#2: [ro-second] arg1 == ModeReadOnly && arg1 && arg0 == dbPath
+//@   ghost update @MakeDSN#2: roD = result
+//@   assert @sql.Open#1: [rw-handle-dsn] arg1 == rwD
+//@   assert @sql.Open#2: [ro-handle-dsn] arg1 == roD
+//@   ensures [pools] retErr == nil ==> (retDB != nil && retDB.rwDB != retDB.roDB && handleDSN[retDB.rwDB] == rwD && handleDSN[retDB.roDB] == roD && retDB.roDSN == roD && retDB.rwDSN == rwD)
+//
+//@ type DB
+//@   stable rwDB, roDB, path, walPath
+//@   stable_set_in OpenWithDriver
+//
+// QueryWithContext obtains its connection from the read-only pool only.
+//@ func (*DB) QueryWithContext
+//@   requires [recv] db != nil && db.roDB != nil
+//@   ghost var roConn int = 0
+//@   ghost update @db.roDB.Conn: roConn = result0
+//@   assert @db.queryWithConn: [ro-pool] arg3 == roConn
+//@   assert @db.rwDB.*: [never-rw] false
+//
+// ---- C35: requests decoded from the wire / the log may have no Request payload ------------------
+// These three functions are reached from FSM.Apply and from the inter-node service with whatever
+// request a peer (or the log) supplied; they must not dereference a nil request (a panic here is
+// in the raft FSM goroutine of every node that applies the entry).
+//@ func (*DB) ExecuteWithContext
+//@   safe
+//@   requires [recv] db != nil && db.rwDB != nil
+//@ func (*DB) QueryWithContext
+//@   safe
+//@ func (*DB) RequestWithContext
+//@   safe
+//@   requires [recv] db != nil && db.rwDB != nil
